@@ -53,3 +53,21 @@ Theorem C01_fresh_subprocess : forall w, wf (lw w) -> forall o l, l < nlayers (l
   c01_trace_ok w (c_ev (child_run w o l)) = true.
 Proof. exact c01_child. Qed.
 Print Assumptions C01_fresh_subprocess.
+
+(* ------------------------------------------------------------------------------------------------------------
+   Observation level.  The predicate Obs.c01_ok that the check evaluates on the IMPLEMENTATION's observation
+   (hook calls of layers that define the hook, test phases) holds of the MODEL's observation of every run … *)
+From ZT Require Import Chk_World Obs ObsC01.
+
+Theorem C01_predicate_holds_of_model : forall w o,
+  wf (lw w) -> (forall t, In t (tests w) -> t_layer t < nlayers (lw w)) ->
+  c01_ok w (observed w (r_parent (run w o))) (map (fun c => (c_layer c, observed w (c_ev c))) (r_children (run w o))) = true.
+Proof. exact c01_ok_model. Qed.
+Print Assumptions C01_predicate_holds_of_model.
+
+(* … hence, for sequential runs, a case on which the correspondence check finds no difference (check-code bit 1
+   clear) and which is within the hypotheses (bit 4 clear) cannot violate the predicate (bit 2 clear). *)
+Theorem C01_check_sound : forall c, agree c = true -> wf_case c = true -> Nat.ltb 1 (o_procs (Chk_World.o c)) = false ->
+  c01_ok (Chk_World.w c) (i_parent c) (i_children c) = true.
+Proof. exact c01_check_sound. Qed.
+Print Assumptions C01_check_sound.
